@@ -473,7 +473,7 @@ def atom_tokens(name, src):
     import re
     if name == '[]':
         return ['[', ']'] if (src is None or src.n(8) != 7) else ["'[]'"]
-    plain = re.match(r'^[a-z][A-Za-z0-9_]*$', name) and name not in ('true', 'fail')
+    plain = re.fullmatch(r'[a-z][A-Za-z0-9_]*', name) and name not in ('true', 'fail')
     if plain and (src is None or src.n(8) != 7):
         return [name]
     return ["'" + name.replace("'", "\\'") + "'"]
